@@ -131,7 +131,13 @@ pub fn gen_jitter_spec(rng: &mut Prng, prop: &str, allowed: &[CF], c16_bias: boo
     if rng.chance(1, 25) {
         let r = rng.range(1, 3) as usize;
         let mask = *rng.pick(&[crate::craft::MASK_HI, crate::craft::MASK_HI, crate::craft::MASK_LO, crate::craft::MASK_ALL]);
-        if let Some(d) = crate::craft::solve_deltas(rng, r + 1, mask) {
+        // one in five: not a fixed pattern but a RELATION inside the value: low half == high half
+        let solved = if rng.chance(1, 5) {
+            crate::craft::solve_deltas_xf(rng, 0, r + 1, crate::craft::MASK_LO, 0, crate::craft::fold_halves)
+        } else {
+            crate::craft::solve_deltas(rng, r + 1, mask)
+        };
+        if let Some(d) = solved {
             let prefix = crate::craft::crafted_prefix(rng, &d);
             let shift = prefix.len() as u32;
             let last = *prefix.last().unwrap();
